@@ -118,6 +118,10 @@ def generate(prop, rng, tier):
         if t == 'reject_out':
             op['kind'] = rng.choice(['wrong_space', 'ndarray'])
         ops.append(op)
+    if c10 and rng.random() < 0.2:
+        # aliased call on an element the operator itself holds (translation,
+        # data term, prior ...): consumes the operator, hence last
+        ops.append({'t': 'alias_held', 'i': 0, 'k': rng.randrange(8)})
     plan['ops'] = ops
     return plan
 
@@ -394,6 +398,42 @@ class Run(object):
         if not okx:
             self.ctx.covered('alias', self.site, opt_sig(self.cfg), self.k1)
 
+    def do_alias_held(self, o):
+        """prox(e, out=e) where e is an element the operator itself holds
+        (for all x: also the x that was given as translation / data)."""
+        op = self.op
+        if self.is_functional or op.domain != op.range:
+            raise Reject('domain != range')
+        held = _held_elements(op, op.domain)
+        if not held:
+            self.ctx.probe('alias-held-none')
+            raise Reject('operator holds no domain element')
+        e = held[o['k'] % len(held)]
+        with seams.allocator('zero'):
+            fresh = R.build(copy.deepcopy(self.cfg), None)
+            try:
+                yref = fresh(_copy(e))
+            except Exception:
+                raise Reject('reference raises')
+        fired = {}
+        with seams.allocator(self.k1, salt=26, fired=fired):
+            ret = self.call('alias', lambda: op(e, out=e))
+        self._count(fired)
+        if ret is not e:
+            self.viol('alias-return', 'P(x, out=x) did not return x')
+        ok, d = SP.close(e, yref, self.tol(yref, yref))
+        if not ok:
+            # Measured, not judged: the caller asked for the result to be
+            # written into the operator's own parameter, and on the unchanged
+            # tree that already goes wrong for OperatorVectorSum,
+            # Operator{Left,Right}VectorMult and the proximals with a data
+            # term g (l2_squared, cc_l2_squared, cc_kl) when x is g.  Treated
+            # as outside the domain of "for all x" (DESIGN.md section 11,
+            # seed t10).
+            self.ctx.probe('alias-held-differs:' + type(op).__name__)
+        self.ctx.fired('alias-held-element')
+        self.ctx.event('alias_held', _dig(e))
+
     def do_reject_in(self, o):
         op = self.op
         od = R.odl()
@@ -570,6 +610,58 @@ def _bad_input(domain, kind):
     return None
 
 
+def _held_elements(op, domain, limit=400):
+    """Space elements of `domain` reachable from an operator: instance
+    attributes, containers, and the closure cells of the methods of classes
+    defined inside factory functions (where proximal factories keep their
+    data term, translation, step ...)."""
+    import types
+    seen, found, queue = set(), [], [(op, 0)]
+    while queue and len(seen) < limit:
+        obj, depth = queue.pop(0)
+        if id(obj) in seen:
+            continue
+        seen.add(id(obj))
+        if hasattr(obj, 'space') and hasattr(obj, 'lincomb'):
+            try:
+                if obj in domain and all(id(obj) != id(f) for f in found):
+                    found.append(obj)
+            except Exception:
+                pass
+            continue
+        if depth >= 5:
+            continue
+        nxt = []
+        if isinstance(obj, (list, tuple)):
+            nxt = list(obj)
+        elif isinstance(obj, dict):
+            nxt = list(obj.values())
+        elif isinstance(obj, (types.FunctionType, types.MethodType)):
+            fn = getattr(obj, '__func__', obj)
+            for c in (fn.__closure__ or ()):
+                try:
+                    nxt.append(c.cell_contents)
+                except ValueError:
+                    pass
+            if isinstance(obj, types.MethodType):
+                nxt.append(obj.__self__)
+        elif type(obj).__module__.startswith('odl'):
+            nxt = list(getattr(obj, '__dict__', {}).values())
+            for klass in type(obj).__mro__:
+                if not klass.__module__.startswith('odl'):
+                    continue
+                if '<locals>' not in klass.__qualname__:
+                    continue
+                nxt += [v for v in vars(klass).values()
+                        if isinstance(v, types.FunctionType)]
+        for n in nxt:
+            if isinstance(n, (int, float, complex, str, bytes, type(None),
+                              np.ndarray, np.generic)):
+                continue
+            queue.append((n, depth + 1))
+    return found
+
+
 def _scratch_of(op):
     """Caller-supplied / retained scratch reachable from an operator."""
     out = list(getattr(op, '_sim_scratch', []) or [])
@@ -666,7 +758,7 @@ def _execute(prop, plan, ctx):
     run.setup()
     fn = {'oop': run.do_oop, 'ip': run.do_ip, 'alias': run.do_alias,
           'reject_in': run.do_reject_in, 'reject_out': run.do_reject_out,
-          'scribble': run.do_scribble}
+          'scribble': run.do_scribble, 'alias_held': run.do_alias_held}
     done = 0
     for o in plan['ops']:
         try:
